@@ -103,4 +103,27 @@ theorem tie_segReadAt : segReadAtText =
 theorem tie_collectionFileReader : collectionFileReaderCalls =
     ["(&arvados.Collection{ManifestText: mText}).FileSystem", "fs.OpenFile"] := rfl
 
+/-- filenode.Read (Model.fileRead): seek, EOF past the last segment, one segment read, pointer
+advance, EOF at a segment end that is not the file end becomes nil. -/
+theorem tie_filenodeRead : filenodeReadText =
+    "{ ptr = fn.seek(startPtr) if ptr.off < 0 { err = ErrNegativeOffset return } if ptr.segmentIdx >= len(fn.segments) { err = io.EOF return } n, err = fn.segments[ptr.segmentIdx].ReadAt(p, int64(ptr.segmentOff)) if n > 0 { ptr.off += int64(n) ptr.segmentOff += n if ptr.segmentOff == fn.segments[ptr.segmentIdx].Len() { ptr.segmentIdx++ ptr.segmentOff = 0 if ptr.segmentIdx < len(fn.segments) && err == io.EOF { err = nil } } } return }" := rfl
+
+/-- filenode.seek (Model.seek / locate) and filehandle.Seek (Model.fileSeek: a changed offset marks
+the pointer stale, `repacked = -1`). -/
+theorem tie_filenodeSeek :
+    filenodeSeekConds = ["if ptr.off < 0", "if ptr.off >= fn.fileinfo.size", "if ptr.repacked == fn.repacked",
+      "if ptr.segmentOff >= fn.segments[ptr.segmentIdx].Len()", "if ptr.off >= fn.fileinfo.size",
+      "for off < ptr.off", "if off+segLen > ptr.off"] ∧
+    filehandleReadCalls = ["f.inode.RLock", "f.inode.RUnlock", "f.inode.Read"] ∧
+    filehandleSeekAssigns = ["size := f.inode.Size()", "ptr := f.ptr", "ptr.off = off", "ptr.off += off",
+      "ptr.off = size + off", "f.ptr = ptr", "f.ptr.repacked = -1"] := ⟨rfl, rfl, rfl⟩
+
+/-- loadManifest's stream-offset → block-segment loop (Model.walkBlocks / loadTokensN): these
+conditions occur, in this order (other parse conditions of loadManifest belong to C10). -/
+theorem tie_loadManifestWalk :
+    (["if pos > offset", "for segIdx < len(segments)", "if next <= offset || seg.Len() == 0",
+      "if pos >= offset+length", "if pos < offset", "if pos+int64(blkOff+blkLen) > offset+length",
+      "if blkLen > 0", "if next > offset+length",
+      "if segIdx == len(segments) && pos < offset+length"].isSublist loadManifestConds) = true := by decide
+
 end ArvVerif.Tie.C03
